@@ -275,6 +275,9 @@ func ReadMappingValues(remainder []byte, map_length Integer) (values *MappingVal
 
 	var remainder_updated []byte
 	remainder_updated, map_values, errs = parseKeyValuePairs(remainder, map_values, errs)
+	if len(errs) == 0 && len(remainder_updated) > 0 {
+		remainder_updated, map_values, errs = parseShortTail(remainder_updated, map_values, errs)
+	}
 	values = &map_values
 
 	log.WithFields(logger.Fields{
@@ -284,6 +287,27 @@ func ReadMappingValues(remainder []byte, map_length Integer) (values *MappingVal
 	}).Debug("Finished reading MappingValues")
 
 	return
+}
+
+// parseShortTail parses the one to five bytes that parseKeyValuePairs leaves behind in an
+// otherwise error-free, complete mapping (its loop stops when fewer than six bytes remain).
+// Pairs with an empty or one-byte key or value, such as a="" (5 bytes), are legal and must not
+// be dropped; bytes that do not form a pair are reported as an error instead of being ignored.
+func parseShortTail(remainder []byte, map_values MappingValues, errs []error) ([]byte, MappingValues, []error) {
+	encounteredKeysMap := map[string]bool{}
+	for _, pair := range map_values {
+		storeEncounteredKey(pair[0], encounteredKeysMap)
+	}
+	for len(remainder) > 0 {
+		previousLength := len(remainder)
+		var stop bool
+		remainder, map_values, errs, stop = parseNextPair(remainder, map_values, errs, encounteredKeysMap)
+		if stop || len(remainder) >= previousLength {
+			break
+		}
+		storeEncounteredKey(map_values[len(map_values)-1][0], encounteredKeysMap)
+	}
+	return remainder, map_values, errs
 }
 
 // validateMappingInput checks if the input data is valid for mapping parsing.
